@@ -15,7 +15,7 @@ EXPLANATION = (
     "label-distance guard in the PC-relative helper is evaluated likewise over distances around +-2^(w-1) for w = 9, 10, 11. "
     "R2 (TAB): per instruction kind the parser's (signedness, width) equals the encoder's field width. R3: rejections are "
     "propagated - duplicate label, second .orig, undefined label and out-of-range literal all reach the caller as Err, and "
-    "the symbol table reports duplicates through insert() returning Some. R4: the lexer's literal range is the union of the "
+    "the symbol table reports duplicates through insert() returning Some - on every way: no Ok behind Some (a second definition at the same address is still a duplicate) and no Err behind None. R4: the lexer's literal range is the union of the "
     "i16 and u16 parses ([-32768, 65535])."
     " R3 also: behind the failure of a call of one of the lexer's / parser's own fallible routines every way to a return carries an error (no failure is overwritten by a second attempt), and resolving the labels (AsmLine::backpatch, Air::backpatch) fails for an undefined label only - the label distance is judged once, by the guard of R1."
 )
@@ -306,10 +306,15 @@ def run(ctx):
             s["k"] == "assign" and s["p"]["l"] == 0 and s["r"]["k"] == "agg" and s["r"].get("variant") == "Err" for bb in lf.reachable(some_t) for s in lf.stmts(bb))
         none_t = tg.get(0, tt.get("otherwise"))
         ok = ok and any(s["k"] == "assign" and s["p"]["l"] == 0 and s["r"]["k"] == "agg" and s["r"].get("variant") == "Ok" for bb in lf.reachable(none_t) for s in lf.stmts(bb))
+        # and on every way: no acceptance behind an existing entry (a duplicate at the same address is still a duplicate), no rejection of a new name
+        def _res(from_, variant):
+            return any(s["k"] == "assign" and s["p"]["l"] == 0 and s["r"]["k"] == "agg" and s["r"].get("variant") == variant
+                       for bb in lf.reachable(from_) for s in lf.stmts(bb))
+        ok = ok and not _res(some_t, "Ok") and not _res(none_t, "Err")
     ctx.instance(1)
     ctx.oblig(ok, {"Label::insert": "Some(old) -> Err, None -> Ok"}, "decision on HashMap::insert's result")
     if not ok:
-        ctx.violation("duplicate-detection", lf.file_line(), "Label::insert does not turn an existing entry (HashMap::insert -> Some) into an error")
+        ctx.violation("duplicate-detection", lf.file_line(), "Label::insert does not turn every existing entry (HashMap::insert -> Some) into an error and every new one into Ok")
     so = ctx.fn("lace::air::Air::set_orig")
     tree = formula.decision(so)
     labs = {}
